@@ -399,6 +399,9 @@ fn main() {
                 // more than 256 digits of the narrowest digit type: few, expensive cases
                 let odd = matches!(w, 80 | 112 | 160 | 224 | 384 | 448 | 576);
                 let q = if w >= 2000 { QUICK / 12 } else if odd { QUICK / 4 } else if w >= 192 { QUICK / 2 } else { QUICK };
+                if w >= 2000 {
+                    ctx.shrink_iters = 150; // one evaluation of ~300 operations on 2080 / 4160 bits takes about a second
+                }
                 ctx.run("ops", ctx.budget(q, FACTOR), tuples(shapes), |c: &Tuple, obs: &mut Obs| {
                     let base = ops_vector::<$U0, $I0>(c);
                     obs.nt_if(c.0 .0.iter().any(|&b| b != 0) && c.1 .0.iter().any(|&b| b != 0));
@@ -468,7 +471,7 @@ fn main() {
         (BUintD32<1>, BIntD32<1>) => (BUintD8<5>, BIntD8<5>),
     }
 
-    // (c) constants for all 43 configurations, and the aliases
+    // (c) constants for all 51 configurations, and the aliases
     macro_rules! k {
         ($U:ty, $I:ty) => {
             constants::<$U, $I>(&mut jobs);
@@ -480,7 +483,7 @@ fn main() {
     runner::main(
         Property {
             id: "C16",
-            rule: "(a) For each of the width groups {16, 32, 48, 64, 96, 128, 192, 320, 2080, 4160} (2-4 digit types each; the last two have more than 256 digits of the narrowest digit type and a twelfth of the budget) and, at a quarter of the budget, {80, 112, 160, 224, 384, 448, 576} (digit counts 5, 7, 9, 10, 14, 18, 20, 28, ... that leave a remainder after 2-, 4- or 8-digit chunks in one digit type but not in another) one operand tuple (three W-bit patterns structured for the 8-bit and for the widest digit size - a sixth of the pairs put a boundary value (MIN, MAX, -1, 0, 1, 2^k ...) against a digit-wise structured partner -, a shift/rotate amount, an exponent, a radix, a text / byte string - decimal numerals with up to BITS + 8 redundant leading zeros and numerals around 2^W, 2^(W-1) and 1.5 * 2^W among them -, float bits) is loaded into every member and a table of ~300 operations (among them the extreme values MIN, MAX, -1 of the type divided / multiplied by the structured operands and vice versa) (every overflow mode of add/sub/mul/div/rem, shifts, rotations, bit operations, comparison, pow, ilog, radix output, parsing of strings and digit slices, byte slices, all eight formatting traits with three flag specifications, casts to f32/f64/every primitive and from floats, operators with their profile-dependent panic outcome) is evaluated in each; results are normalised to strings ('Panicked' for a panic; the error kind of long invalid strings, which the property leaves open, to 'Err(any)') and must be identical across the group, and As casts between the members must preserve the pattern. Differential oracle, no reference model. (b) 18 (narrow, wide) pairs (same and different digit types, zero- and sign-extension): whenever the exact result is representable in the narrow type (decided by the reference integer), add/sub/mul/div/rem/pow/shl/cmp/decimal print/decimal parse on the extended operands equals the extension of the narrow result. (c) BITS, BYTES, MIN, MAX, ZERO, ONE..TEN, NEG_ONE..NEG_TEN for all 86 types and the aliases U128..I8192: enumerated completely. NON-TRIVIAL: (a) both main operands non-zero; (b) at least three operations had a representable exact result with non-zero operands; (c) every constant. distinct = distinct (profile, job, inputs) by 64-bit hash.",
+            rule: "(a) For each of the width groups {16, 32, 48, 64, 96, 128, 192, 320, 2080, 4160} (2-4 digit types each; the last two have more than 256 digits of the narrowest digit type and a twelfth of the budget) and, at a quarter of the budget, {80, 112, 160, 224, 384, 448, 576} (digit counts 5, 7, 9, 10, 14, 18, 20, 28, ... that leave a remainder after 2-, 4- or 8-digit chunks in one digit type but not in another) one operand tuple (three W-bit patterns structured for the 8-bit and for the widest digit size - a sixth of the pairs put a boundary value (MIN, MAX, -1, 0, 1, 2^k ...) against a digit-wise structured partner -, a shift/rotate amount, an exponent, a radix, a text / byte string - decimal numerals with up to BITS + 8 redundant leading zeros and numerals around 2^W, 2^(W-1) and 1.5 * 2^W among them -, float bits) is loaded into every member and a table of ~300 operations (among them the extreme values MIN, MAX, -1 of the type divided / multiplied by the structured operands and vice versa) (every overflow mode of add/sub/mul/div/rem, shifts, rotations, bit operations, comparison, pow, ilog, radix output, parsing of strings and digit slices, byte slices, all eight formatting traits with three flag specifications, casts to f32/f64/every primitive and from floats, operators with their profile-dependent panic outcome) is evaluated in each; results are normalised to strings ('Panicked' for a panic; the error kind of long invalid strings, which the property leaves open, to 'Err(any)') and must be identical across the group, and As casts between the members must preserve the pattern. Differential oracle, no reference model. (b) 18 (narrow, wide) pairs (same and different digit types, zero- and sign-extension): whenever the exact result is representable in the narrow type (decided by the reference integer), add/sub/mul/div/rem/pow/shl/cmp/decimal print/decimal parse on the extended operands equals the extension of the narrow result. (c) BITS, BYTES, MIN, MAX, ZERO, ONE..TEN, NEG_ONE..NEG_TEN for all 102 types and the aliases U128..I8192: enumerated completely. NON-TRIVIAL: (a) both main operands non-zero; (b) at least three operations had a representable exact result with non-zero operands; (c) every constant. distinct = distinct (profile, job, inputs) by 64-bit hash.",
             assumptions: &[
                 "digits()/from_digits()/to_bits()/from_bits() are the trusted observation channel",
                 "(a) is purely differential: a defect common to all digit types is invisible here and is the business of C01-C15",
